@@ -211,6 +211,7 @@ class Ctx:
     def coq_cases(self, name, text, timeout=900):
         d = os.path.join(COQ, "Cases")
         os.makedirs(d, exist_ok=True)
+        name = "%s_p%d" % (re.sub(r"[^A-Za-z0-9_]", "_", name), os.getpid())   # concurrent runs must not collide
         path = os.path.join(d, name + ".v")
         with open(path, "w") as f:
             f.write(text)
@@ -220,10 +221,12 @@ class Ctx:
                 os.remove(os.path.join(d, name + ext))
             except OSError:
                 pass
-        try:
-            os.remove(os.path.join(d, "." + name + ".aux"))
-        except OSError:
-            pass
+        for f in (os.path.join(d, "." + name + ".aux"), path if rc == 0 else ""):
+            try:
+                if f:
+                    os.remove(f)
+            except OSError:
+                pass
         return rc == 0, out + err
 
     # ---------------------------------------------------------------- Go
